@@ -23,14 +23,14 @@ raw = {"openapi": "3.0.2", "info": {"title": "t", "version": "1"}, "paths": {
 which = sys.argv[1]
 fired = []
 if which == "join_unit":
-    from schemathesis.engine.phases.unit import _pool
-    orig = _pool.WorkerPool.stop
-    def stop(self):
-        orig(self)
-        if not fired:
+    import threading
+    orig_join = threading.Thread.join
+    def join(self, *a, **k):
+        orig_join(self, *a, **k)
+        if self.name.startswith("schemathesis_unit_tests") and not fired:
             fired.append(1)
-            raise KeyboardInterrupt  # Ctrl-C arrives while the main thread sits in Thread.join
-    _pool.WorkerPool.stop = stop
+            raise KeyboardInterrupt  # Ctrl-C arrives while the main thread sits in Thread.join (WorkerPool.stop)
+    threading.Thread.join = join
     phases = [PhaseName.FUZZING]
     schema = schemathesis.openapi.from_dict(raw).configure(app=app)
 elif which == "join_stateful":
